@@ -15,6 +15,7 @@ from fractions import Fraction
 from .. import env
 from ..util import call
 from ..report import short
+from ..snapshot import snapshot, first_diff
 
 glom = env.bind()
 from glom import T, Spec, PathAccessError, GlomError, glom as G  # noqa: E402
@@ -459,8 +460,21 @@ def check_expr(col, e, build, origin):
     nontrivial = len(e.steps) >= 2 or any(k != 'lit' and k != '-' for k in arg_kinds(e))
     failpos = want[1].pos if want[0] == 'fail' else None
     col.case((origin, kinds, arg_kinds(e), failpos), nontrivial)
+    def tsnap():
+        return tuple((k, snapshot(v)) for k, v in sorted(t_glom.__dict__.items()) if k != 'log')
+    snap = tsnap()
     got = call(G, t_glom, expr)
     col.count('glom_evaluations')
+    if tsnap() != snap:
+        col.violation('C02/evaluation-mutates-the-target:' + _last_kind(kinds),
+                      '%s changed its target: %s' % (rendering, first_diff(snap, tsnap())), {'expr': rendering})
+        return
+    # replaying the same recorded operations again gives the same outcome (nothing was consumed or mutated)
+    again = call(G, t_glom, expr)
+    if again.ok != got.ok or (got.ok and not same_value(again.value, got.value)):
+        col.violation('C02/second-evaluation-differs:' + _last_kind(kinds), '%s: first %r, second %r' % (rendering, got, again), {'expr': rendering})
+        return
+    del t_glom.log[len(t_glom.log) // 2:]
     col.count('ops_replayed', len(e.steps) + 1)
     wit = {'expr': rendering, 'target': short(t_ref), 'steps': short(kinds)}
     if col.want_sample('ok' if want[0] == 'ok' else 'failing'):
